@@ -17,7 +17,7 @@ SPECS = {
     "tables": ("gen_tables", ["matid/data/symmetry_data.py"], ["MatidGen/AllGroups.lean", "MatidGen/SG/G001.lean", "MatidGen/SG/G230.lean"]),
     "centring": ("gen_centring", ["matid/symmetry/symmetryanalyzer.py"], ["MatidGen/Centring.lean"]),
     "wyckoff_rule": ("gen_wyckoff_rule", ["matid/symmetry/symmetryanalyzer.py"], ["MatidGen/WyckoffRule.lean"]),
-    "cluster_rule": ("gen_cluster_rule", ["matid/clustering/cluster.py"], ["MatidGen/ClusterRule.lean"]),
+    "cluster_rule": ("gen_cluster_rule", ["matid"], ["MatidGen/ClusterRule.lean"]),
     "analyzer_rule": ("gen_analyzer_rule", ["matid/symmetry/symmetryanalyzer.py"], ["MatidGen/AnalyzerRule.lean"]),
     "sbc_rule": ("gen_sbc_rule", ["matid/clustering/sbc.py", "matid/core/periodicfinder.py"], ["MatidGen/SbcRule.lean"]),
     "classifier_rule": ("gen_classifier_rule", ["matid/classification/classifier.py"], ["MatidGen/ClassifierRule.lean"]),
@@ -31,7 +31,15 @@ SPECS = {
 def _digest(mod, sources):
     h = hashlib.sha256()
     for rel in sources:
-        with open(os.path.join(REPO, rel), "rb") as f:
+        full = os.path.join(REPO, rel)
+        if os.path.isdir(full):          # every python file below it (excluding the data tables, which hold no code)
+            for root, _, files in sorted(os.walk(full)):
+                for fn in sorted(files):
+                    if fn.endswith(".py") and fn != "symmetry_data.py":
+                        with open(os.path.join(root, fn), "rb") as f:
+                            h.update(fn.encode() + f.read())
+            continue
+        with open(full, "rb") as f:
             h.update(f.read())
     for tool in (mod + ".py", "affine.py"):
         with open(os.path.join(VERIF, "tools", tool), "rb") as f:
